@@ -38,6 +38,7 @@ struct ScriptSource {
     int err = -EIO;
     int end_code = -ENODATA;
     Script script;
+    bool scribble = false;    // a driver may leave anything in the caller's location when it reports an error or transfers nothing: fill it with SLIP END octets
     std::vector<std::pair<size_t, int>> transient;   // (stream position, negative code): reported once when a call finds the stream at that position, nothing is transferred by that call
     Source src;
     bool chunk;
@@ -57,15 +58,16 @@ struct ScriptSource {
         ByteBuffer b; b.data = me->scratch.data(); b.size = me->scratch.size(); b.offset = 1; b.used = me->scratch.size() - 1;   // one guard octet on either side
         return b;
     }
+    ssize_t scrib(void *out, size_t n, ssize_t rc) { if (scribble && n) memset(out, 0xc0, n > 4 ? 4 : n); return rc; }
     ssize_t transfer(void *out, size_t n) {
         vp::tick();
         calls++;
         if (n > maxask) maxask = n;
-        if (err_at >= 0 && pos >= (size_t)err_at) return err;
-        for (size_t i = 0; i < transient.size(); i++) if (transient[i].first == pos) { int code = transient[i].second; transient.erase(transient.begin() + (long)i); return code; }
+        if (err_at >= 0 && pos >= (size_t)err_at) return scrib(out, n, err);
+        for (size_t i = 0; i < transient.size(); i++) if (transient[i].first == pos) { int code = transient[i].second; transient.erase(transient.begin() + (long)i); return scrib(out, n, code); }
         int s = script.next();
-        if (s <= 0) return s;
-        if (pos >= data.size()) return end_code;
+        if (s <= 0) return scrib(out, n, s);
+        if (pos >= data.size()) return scrib(out, n, end_code);
         size_t k = std::min<size_t>({(size_t)s, n, data.size() - pos});
         if (err_at >= 0 && pos + k > (size_t)err_at) k = (size_t)err_at - pos;   // deliver up to the faulty position first
         memcpy(out, data.data() + pos, k);
